@@ -25,6 +25,8 @@ from nlgen import Model, Rng
 
 PROP_MIN_THEOREMS = 53
 COMPOSE_MIN_THEOREMS = 11
+EXTRA_MODULES = [('MpVerif.C01.PropsCompose', 'MpVerif/C01/PropsCompose.lean', COMPOSE_MIN_THEOREMS),
+                 ('MpVerif.C01.PropsCtxGen', 'MpVerif/C01/PropsCtxGen.lean', 11)]
 
 # every type except cones / unary-encoding marker: natively accepted in run A
 BASE_ACCEPT = ['LinConRange', 'LinConLE', 'LinConEQ', 'LinConGE',
@@ -1116,38 +1118,46 @@ def run_gadgets(ck, n_cases=None, proof=True):
     t0 = time.time()
     res = {'proof_ok': True, 'failing': [], 'disagreements': []}
     if proof:
+        # regenerate lean/MpVerif/Gen/Context.lean from the tree under test (written only when changed)
+        rc, gout, gerr = sh([sys.executable, os.path.join(VERIF, 'translators', 'gen_context.py'), REPO,
+                             os.path.join(LEAN, 'MpVerif', 'Gen', 'Context.lean'), os.path.join(BUILD, 'tr')], timeout=300)
+        ck.log((gout.strip() or gerr.strip())[-300:])
+        res['translator_ok'] = rc == 0
         ok, failing = ck.proof_stage('MpVerif.C01.Props', 'MpVerif/C01/Props.lean', 'C01_',
-                                     ['MpVerif/C01/*.lean'], expect_min=PROP_MIN_THEOREMS)
+                                     ['MpVerif/C01/*.lean', 'MpVerif/Gen/Context.lean'], expect_min=PROP_MIN_THEOREMS)
+        if not res.get('translator_ok', True):
+            ok = False
+            failing = failing + ['translator gen_context.py: ' + (gout + gerr).strip()[-200:]]
         ck.log('proof stage: ok=%s failing=%s' % (ok, failing[:10]))
-        # second property module: the composition theorem over the abstract flat model
-        n1 = int(ck.cov.get('obligations') or 0)
-        d1 = int(ck.cov.get('discharged') or 0)
-        ok2, out2 = ck.lake(['MpVerif.C01.PropsCompose'])
-        fail2 = []
-        thms2 = []
-        if not ok2:
-            fail2 = ck.failing_decls(out2, 'MpVerif/C01/PropsCompose.lean') or ck.failing_decls(out2, 'MpVerif/C01/LemmasCompose.lean') \
-                or ['lake build MpVerif.C01.PropsCompose']
-            ck.cov['lake_output_tail_compose'] = out2[-2000:]
-        else:
-            aok, thms2, aout = ck.prop_theorems('MpVerif.C01.PropsCompose', 'C01_')
-            if not aok or len(thms2) < COMPOSE_MIN_THEOREMS:
-                fail2.append('axiom-audit PropsCompose (%d theorems found, expected >= %d)' % (len(thms2), COMPOSE_MIN_THEOREMS))
-            for nme, ax in thms2:
-                extra = [a for a in ax if a not in ALLOWED_AXIOMS]
-                if extra:
-                    fail2.append('%s uses axioms %s' % (nme, extra))
-        n2 = max(len(thms2), COMPOSE_MIN_THEOREMS)
-        ck.cov['obligations'] = n1 + n2
-        ck.cov['discharged'] = d1 + (n2 - len(set(fail2)) if ok2 else 0)
-        ck.cov['theorems'] = list(ck.cov.get('theorems') or []) + [nme for nme, _ in thms2]
-        ck.cov['checker_cmd'] = str(ck.cov.get('checker_cmd')) + ' ; same for MpVerif.C01.PropsCompose'
-        ck.log('proof stage (composition module): ok=%s theorems=%d failing=%s' % (ok2 and not fail2, len(thms2), fail2[:5]))
-        ok = ok and ok2 and not fail2
-        failing = failing + fail2
+        # further property modules: composition theorem; hand context algebra = generated tables of context.h
+        for module, relfile, nmin in EXTRA_MODULES:
+            n1 = int(ck.cov.get('obligations') or 0)
+            d1 = int(ck.cov.get('discharged') or 0)
+            ok2, out2 = ck.lake([module])
+            fail2 = []
+            thms2 = []
+            if not ok2:
+                fail2 = ck.failing_decls(out2, relfile) or ['lake build ' + module]
+                ck.cov['lake_output_tail_' + module.split('.')[-1]] = out2[-2000:]
+            else:
+                aok, thms2, aout = ck.prop_theorems(module, 'C01_')
+                if not aok or len(thms2) < nmin:
+                    fail2.append('axiom-audit %s (%d theorems found, expected >= %d)' % (module, len(thms2), nmin))
+                for nme, ax in thms2:
+                    extra = [a for a in ax if a not in ALLOWED_AXIOMS]
+                    if extra:
+                        fail2.append('%s uses axioms %s' % (nme, extra))
+            n2 = max(len(thms2), nmin)
+            ck.cov['obligations'] = n1 + n2
+            ck.cov['discharged'] = d1 + max(0, n2 - len(set(fail2)))
+            ck.cov['theorems'] = list(ck.cov.get('theorems') or []) + [nme for nme, _ in thms2]
+            ck.cov['checker_cmd'] = str(ck.cov.get('checker_cmd')) + ' ; same for ' + module
+            ck.log('proof stage (%s): ok=%s theorems=%d failing=%s' % (module.split('.')[-1], ok2 and not fail2, len(thms2), fail2[:5]))
+            ok = ok and ok2 and not fail2
+            failing = failing + fail2
         res['proof_ok'], res['failing'] = ok, failing
         if ck.tier == 'thorough' and ok:
-            badm = ck.leanchecker(['MpVerif.C01.Props', 'MpVerif.C01.PropsCompose'])
+            badm = ck.leanchecker(['MpVerif.C01.Props', 'MpVerif.C01.PropsCompose', 'MpVerif.C01.PropsCtxGen'])
             if badm:
                 res['proof_ok'] = False
                 res['failing'] += ['leanchecker rejected %s' % x for x in badm]
